@@ -30,30 +30,49 @@ def run(ctx, rep):
                 muts.append((f, c))
         for a in f['assigns']:
             muts.append((f, {'f': 'assign', 'line': a.get('line'), 'recv': a.get('target'), 'text': a.get('text')}))
-    ok_mut = [m for m in muts if m[0]['name'] == 'remove_configuration_from_attributes' and m[1]['f'] == 'retain']
+    def keeps_non_typeshare(clo):
+        """The retain predicate keeps exactly the attributes whose *path* is not `typeshare`: `x.path()…to_string() != NAME`,
+        or the negation of a helper predicate that is `attr.path()…to_string() == NAME`."""
+        clo = vt.strip(clo)
+        body = clo.get('body') if isinstance(clo, dict) and clo.get('k') == 'closure' else None
+        b_ = vt.unvar(body)
+
+        def path_eq(x, op):
+            x = vt.unvar(x)
+            if not (isinstance(x, dict) and x.get('k') == 'op' and x.get('op') == op):
+                return False
+            txt = json.dumps(x)
+            return '"f": "path"' in txt and ('CONFIG_ATTRIBUTE_NAME' in txt or '"typeshare"' in txt) and '"contains"' not in txt and '"starts_with"' not in txt
+        if path_eq(b_, '!='):
+            return True
+        if isinstance(b_, dict) and b_.get('k') == 'op' and b_.get('op') == '!' and b_.get('args'):
+            inner = vt.unvar(b_['args'][0])
+            if path_eq(inner, '=='):
+                return True
+            if isinstance(inner, dict) and inner.get('k') == 'call' and inner.get('recv') is None:
+                hs = [g for g in fns if g['name'].split('::')[-1] == str(inner.get('f')).split('::')[-1]]
+                if len(hs) == 1 and path_eq(hs[0].get('tail'), '==') and not hs[0].get('returns'):
+                    return True
+        return False
+    ok_mut = [m for m in muts if m[1]['f'] == 'retain' and m[1].get('args') and keeps_non_typeshare(m[1]['args'][0])
+              and not [fr for fr in m[1].get('guard', []) if fr.get('k') in ('if', 'arm')]]
     for f, c in muts:
-        if (f, c) in ok_mut:
+        if any(f is f2 and c is c2 for f2, c2 in ok_mut):
             continue
-        rep.fail('Y1', f"{f['name']}:{c['f']}:{vt.show(c.get('recv'))[-24:] if c.get('recv') else c.get('text', '')}", f"{f['qual']} mutates the item with `{c['f']}` on `{vt.show(c.get('recv'))[:60] if c.get('recv') else c.get('text')}` — the macro may only remove #[typeshare(..)] helper attributes from members; anything else changes the program the compiler and serde see", {'file': f['file'], 'line': c.get('line')})
+        why = ''
+        if c['f'] == 'retain' and c.get('args') and not keeps_non_typeshare(c['args'][0]):
+            why = f" (predicate `{vt.show(vt.strip(c['args'][0]))[:90]}` is not the test `attribute path != \"typeshare\"`)"
+        rep.fail('Y1', f"{f['name']}:{c['f']}:{vt.show(c.get('recv'))[-24:] if c.get('recv') else c.get('text', '')}", f"{f['qual']} mutates the item with `{c['f']}` on `{vt.show(c.get('recv'))[:60] if c.get('recv') else c.get('text')}`{why} — the macro may only remove #[typeshare(..)] helper attributes from members; anything else changes the program the compiler and serde see", {'file': f['file'], 'line': c.get('line')})
+    rep.check(bool(ok_mut), 'Y1', 'remover:retain-all', 'attribute lists filtered with retain(path != "typeshare"), unconditionally', 'the macro no longer filters whole attribute lists with retain: only some helper attributes are removed (a member carrying two #[typeshare(..)] helpers keeps one, which rustc rejects)', {'file': 'annotation/src/lib.rs', 'line': fns[0]['line']})
     rem = [f for f in fns if f['name'] == 'remove_configuration_from_attributes']
-    if not rem:
-        raise core.Incomplete('remove_configuration_from_attributes not found')
-    r = rem[0]
+    if rem:
+        r = rem[0]
+        site = {'file': r['file'], 'line': r['line']}
+        rets = [c for c in r['calls'] if c.get('f') == 'retain']
+        ok = len(rets) == 1 and vt.show(vt.strip(rets[0]['recv'])) == r['params'][0]['name'] and not [fr for fr in rets[0]['guard'] if fr.get('k') in ('if', 'arm', 'for')]
+        rep.check(ok, 'Y1', 'remover:whole-list', 'the remover filters its whole argument', 'remove_configuration_from_attributes no longer filters the whole attribute list it is given', site)
+    r = rem[0] if rem else fns[0]
     site = {'file': r['file'], 'line': r['line']}
-    rets = [c for c in r['calls'] if c.get('f') == 'retain']
-    ok = len(rets) == 1 and vt.show(vt.strip(rets[0]['recv'])) == r['params'][0]['name'] and not [fr for fr in rets[0]['guard'] if fr.get('k') in ('if', 'arm', 'for')]
-    rep.check(ok, 'Y1', 'remover:retain-all', 'attributes.retain(..) applied unconditionally to the whole list', 'remove_configuration_from_attributes no longer filters the whole attribute list with retain: only some helper attributes are removed (a member carrying two #[typeshare(..)] helpers keeps one, which rustc rejects)', site)
-    if ok:
-        clo = vt.strip(rets[0]['args'][0])
-        body = clo.get('body') if isinstance(clo, dict) else None
-        b = body
-        while isinstance(b, dict) and b.get('k') == 'var':
-            b = b['v']
-        good = isinstance(b, dict) and b.get('k') == 'op' and b.get('op') == '!='
-        if good:
-            txt = json.dumps(b)
-            good = '"f": "path"' in txt and ('CONFIG_ATTRIBUTE_NAME' in txt or '"typeshare"' in txt) and '"contains"' not in txt and '"starts_with"' not in txt
-        rep.check(good, 'Y1', 'remover:predicate', 'keep ⇔ attribute path != "typeshare"', f"the retain predicate is `{vt.show(body)[:120]}` — it must keep exactly the attributes whose path is not `typeshare` (an equality test on the path, not a substring test on the attribute text)", site)
     lets = [l for l in r['lets'] if l.get('names') == ['CONFIG_ATTRIBUTE_NAME']]
     consts = [i for i in ctx.astq['items'] if i['kind'] == 'const' and i['name'] == 'CONFIG_ATTRIBUTE_NAME']
     src = open(ctx.repo + '/annotation/src/lib.rs').read()
@@ -127,12 +146,16 @@ def run(ctx, rep):
               ('the macro hands back its input untouched under `' + ' && '.join((('!' if f_.get('neg') else '') + vt.show(f_.get('c'))[:70]) for f_ in bad_raw[0][1]) + '` — for a struct/enum/union that takes this exit the #[typeshare(..)] helper attributes on members are not stripped and rustc rejects them (the only pass-through allowed is "does not parse as DeriveInput")') if bad_raw else 'for items that are not struct/enum/union (type aliases, consts, fns) the macro no longer returns the untouched input', {'file': t['file'], 'line': (bad_raw[0][2] if bad_raw else t['line'])})
     rep.check(bool(emitted) and not other, 'Y2', 'derive-input:same-item', 'output = token stream of the parsed item', f"the macro emits `{vt.show(other[0][0])[:80] if other else '?'}` for struct/enum/union inputs", tsite)
     strip_calls = [c for c in t['calls'] if c.get('f') == 'strip_configuration_attribute']
-    rep.check(len(strip_calls) == 1, 'Y2', 'strip-called-once', 'strip_configuration_attribute(&mut item)', 'strip_configuration_attribute is not applied exactly once to the parsed item', tsite)
+    if [g for g in fns if g['name'] == 'strip_configuration_attribute']:
+        rep.check(len(strip_calls) == 1, 'Y2', 'strip-called-once', 'strip_configuration_attribute(&mut item)', 'strip_configuration_attribute is not applied exactly once to the parsed item', tsite)
     # Y3 position coverage, by provenance: in the inlined view of strip_configuration_attribute (every helper except the
     # remover itself expanded) each call of the remover is classified by where its argument comes from; every
     # helper-attribute position of syn::Data must be reached, over the complete member lists, unconditionally.
     from .. import inline
-    s0 = [f for f in fns if f['name'] == 'strip_configuration_attribute'][0]
+    s0l = [f for f in fns if f['name'] == 'strip_configuration_attribute']
+    if not s0l or not [f for f in fns if f['name'] == 'remove_configuration_from_attributes']:
+        raise core.Incomplete('Y3: the macro no longer strips member by member through strip_configuration_attribute / remove_configuration_from_attributes: position coverage of this shape (gathered attribute lists) is not modelled — no verdict')
+    s0 = s0l[0]
     ssite = {'file': s0['file'], 'line': s0['line']}
     helpers = tuple(f['name'] for f in fns if f['name'] not in ('remove_configuration_from_attributes', 'strip_configuration_attribute', 'typeshare'))
     v = inline.view(ctx, s0, depth=4, force=helpers)
